@@ -40,12 +40,31 @@ class Sorts:
                 self.env[p.arg] = PA
             elif p.arg == 'consumption' and ann.startswith('dict'):
                 self.env[p.arg] = LD
+        #: a local name has a sort only when EVERY binding of that name in the function gives it that same sort (a name reused
+        #: for a label here and a position there, or rebound to something the rule does not type, has no sort)
+        fixed = dict(self.env)
+        pnames = {p.arg for p in a.posonlyargs + a.args + a.kwonlyargs} | ({a.vararg.arg} if a.vararg else set()) | ({a.kwarg.arg} if a.kwarg else set())
+        nodes = list(ast.walk(f.node))
+        # 1. candidate sorts: the first typed binding of a name proposes its sort (bindings may depend on each other in a circle)
         for _ in range(4):
             before = dict(self.env)
-            for n in ast.walk(f.node):
-                self._bind(n)
+            for n in nodes:
+                for name, srt in self._bindings(n):
+                    if srt is not None and name not in pnames:
+                        self.env.setdefault(name, srt)
             if before == self.env:
                 break
+        # 2. a candidate is kept only when every binding of the name, read with the candidates, gives that sort
+        for _ in range(8):
+            seen: dict[str, set] = {p: {fixed.get(p)} for p in pnames}
+            for n in nodes:
+                for name, srt in self._bindings(n):
+                    seen.setdefault(name, set()).add(srt)
+            drop = [name for name in self.env if seen.get(name, {None}) != {self.env[name]}]
+            if not drop:
+                break
+            for name in drop:
+                del self.env[name]
 
     def sort(self, e: ast.AST) -> str | None:
         if isinstance(e, ast.Name):
@@ -89,52 +108,167 @@ class Sorts:
             if e.elts and all(self.sort(x) == L for x in e.elts):
                 return LS
         if isinstance(e, ast.DictComp):
-            g = e.generators[0]
-            self._bind_loop(g.target, g.iter)
             if self.sort(e.key) == L:
                 return LD
         return None
 
-    def _bind_loop(self, target: ast.AST, it: ast.AST) -> None:
+    def _loop_sorts(self, target: ast.AST, it: ast.AST) -> list[tuple[str, str | None]]:
+        """(name, sort or None) for every name bound by iterating `it` into `target`"""
         s = self.sort(it)
         t = unparse(it)
+        names = [x.id for x in ast.walk(target) if isinstance(x, ast.Name)]
+        out: dict[str, str | None] = {x: None for x in names}
         if isinstance(target, ast.Name):
             if s == LS or (s == LD):
-                self.env.setdefault(target.id, L)
+                out[target.id] = L
             elif s == PA and t == 'self.index_to_key':
-                self.env.setdefault(target.id, L)
+                out[target.id] = L
             elif re.fullmatch(r'range\((number_of_alternatives|len\(self\.alternatives\)|self\.number_of_alternatives|len\(self\.index_to_key\))\)', t):
-                self.env.setdefault(target.id, P)
+                out[target.id] = P
         elif isinstance(target, ast.Tuple) and len(target.elts) == 2 and all(isinstance(x, ast.Name) for x in target.elts):
             a, b = target.elts
-            if isinstance(it, ast.Call) and call_name(it) == 'enumerate' and it.args:
+            if isinstance(it, ast.Call) and call_name(it) == 'enumerate' and it.args and len(it.args) == 1 and not it.keywords:
                 inner = unparse(it.args[0])
-                self.env.setdefault(a.id, P)
+                out[a.id] = P
                 if inner == 'self.index_to_key':
-                    self.env.setdefault(b.id, L)
+                    out[b.id] = L
             elif isinstance(it, ast.Call) and call_name(it) == 'items' and isinstance(it.func, ast.Attribute):
                 if self.sort(it.func.value) == LD:
-                    self.env.setdefault(a.id, L)
+                    out[a.id] = L
             elif isinstance(it, ast.Call) and call_name(it) == 'sorted' and it.args and isinstance(it.args[0], ast.Call) and call_name(it.args[0]) == 'items':
                 if self.sort(it.args[0].func.value) == LD:
-                    self.env.setdefault(a.id, L)
+                    out[a.id] = L
+        return list(out.items())
 
-    def _bind(self, n: ast.AST) -> None:
-        if isinstance(n, (ast.For, ast.comprehension)):
-            self._bind_loop(n.target, n.iter)
-        elif isinstance(n, ast.Assign) and len(n.targets) == 1 and isinstance(n.targets[0], ast.Name):
-            s = self.sort(n.value)
-            if s is not None:
-                self.env.setdefault(n.targets[0].id, s)
-        elif isinstance(n, ast.AnnAssign) and isinstance(n.target, ast.Name) and n.value is not None:
+    def _bindings(self, n: ast.AST) -> list[tuple[str, str | None]]:
+        """the names bound by node n, each with the sort this binding gives it (None: not typed)"""
+        if isinstance(n, (ast.For, ast.AsyncFor, ast.comprehension)):
+            return self._loop_sorts(n.target, n.iter)
+        if isinstance(n, (ast.Assign, ast.AnnAssign, ast.NamedExpr)) and n.value is not None and _neutral(n.value):
+            return []  # initialisation with None or an empty container: says nothing about what the name will hold
+        if isinstance(n, ast.Assign):
+            if len(n.targets) == 1 and isinstance(n.targets[0], ast.Name):
+                return [(n.targets[0].id, self.sort(n.value))]
+            return [(x.id, None) for t in n.targets for x in ast.walk(t) if isinstance(x, ast.Name) and isinstance(x.ctx, ast.Store)]
+        if isinstance(n, ast.AnnAssign) and isinstance(n.target, ast.Name):
+            if n.value is None:
+                return []
             s = self.sort(n.value)
             ann = unparse(n.annotation)
             if s is None and ann.startswith('dict[int'):
                 s = LD
             if s is None and ann.startswith('set[int'):
                 s = LS
-            if s is not None:
-                self.env.setdefault(n.target.id, s)
+            return [(n.target.id, s)]
+        if isinstance(n, ast.AugAssign) and isinstance(n.target, ast.Name):
+            # x op= e keeps a set of labels a set of labels; any other in-place update leaves the rule without a type
+            keep = self.env.get(n.target.id) == LS and isinstance(n.op, (ast.BitOr, ast.BitAnd, ast.Sub))
+            return [] if keep else [(n.target.id, None)]
+        if isinstance(n, ast.NamedExpr) and isinstance(n.target, ast.Name):
+            return [(n.target.id, self.sort(n.value))]
+        if isinstance(n, (ast.With, ast.AsyncWith)):
+            return [(x.id, None) for it in n.items if it.optional_vars is not None for x in ast.walk(it.optional_vars) if isinstance(x, ast.Name)]
+        if isinstance(n, ast.ExceptHandler) and n.name:
+            return [(n.name, None)]
+        return []
+
+
+def _order_of(func: ast.FunctionDef, e: ast.expr, depth: int = 8):
+    """the iteration order of a collection expression of a constructor, as a term:
+      ('atom', text)          a collection the method receives (a parameter, or the attribute it is stored in unchanged)
+      ('set', term, site)     the set built at `site` from the elements of term (its order is its own)
+      ('sorted', atom-text)   the elements in increasing order
+      ('reversed', term)
+    order-preserving wrappers (list, tuple, iter, [x for x in .], dict.keys(), dict.fromkeys) are looked through, single-definition
+    locals and attributes of self stored once in the method are read as their definition.  None: not understood."""
+    from ..core import inline_locals
+
+    if depth == 0:
+        return None
+    a = func.args
+    params = {x.arg for x in a.posonlyargs + a.args + a.kwonlyargs}
+    e = inline_locals(func, e)
+    if isinstance(e, ast.Name):
+        reb = [n for n in ast.walk(func) if isinstance(n, ast.Name) and n.id == e.id and isinstance(n.ctx, (ast.Store, ast.Del))]
+        return ('atom', e.id) if e.id in params and not reb and not _container_touched(func, e.id) else None
+    if isinstance(e, ast.Attribute) and isinstance(e.value, ast.Name) and e.value.id == (a.args[0].arg if a.args else 'self'):
+        text = unparse(e)
+        stores = [n for n in ast.walk(func) if isinstance(n, (ast.Assign, ast.AnnAssign, ast.AugAssign)) and
+                  any(unparse(x) == text for t in (n.targets if isinstance(n, ast.Assign) else [n.target]) for x in ast.walk(t) if isinstance(x, ast.Attribute))]
+        if len(stores) != 1 or isinstance(stores[0], ast.AugAssign) or stores[0].value is None or _container_touched(func, text):
+            return None
+        st = stores[0]
+        if isinstance(st, ast.Assign) and (len(st.targets) != 1 or unparse(st.targets[0]) != text):
+            return None
+        return _order_of(func, st.value, depth - 1)
+    if isinstance(e, ast.Call) and not e.keywords and len(e.args) == 1 and isinstance(e.func, ast.Name):
+        inner = _order_of(func, e.args[0], depth - 1)
+        if inner is None:
+            return None
+        if e.func.id in ('list', 'tuple', 'iter'):
+            return inner
+        if e.func.id in ('set', 'frozenset'):
+            return ('set', inner, (e.lineno, e.col_offset))
+        if e.func.id == 'sorted':
+            return ('sorted', _elements(inner))
+        if e.func.id == 'reversed':
+            return ('reversed', inner)
+        return None
+    if isinstance(e, ast.Call) and isinstance(e.func, ast.Attribute) and not e.args and not e.keywords and e.func.attr == 'keys':
+        return _order_of(func, e.func.value, depth - 1)
+    if isinstance(e, ast.Call) and unparse(e.func) == 'dict.fromkeys' and len(e.args) == 1 and not e.keywords:
+        return _order_of(func, e.args[0], depth - 1)
+    if isinstance(e, (ast.ListComp, ast.GeneratorExp, ast.SetComp)) and len(e.generators) == 1:
+        g = e.generators[0]
+        if not g.ifs and not g.is_async and isinstance(g.target, ast.Name) and isinstance(e.elt, ast.Name) and e.elt.id == g.target.id:
+            inner = _order_of(func, g.iter, depth - 1)
+            if inner is None:
+                return None
+            return ('set', inner, (e.lineno, e.col_offset)) if isinstance(e, ast.SetComp) else inner
+    return None
+
+
+def _container_touched(func: ast.AST, text: str) -> bool:
+    """an in-place change of the collection written `text` somewhere in the method (its order may change under way)"""
+    for n in ast.walk(func):
+        if isinstance(n, ast.Call) and isinstance(n.func, ast.Attribute) and unparse(n.func.value) == text and \
+                n.func.attr in ('add', 'remove', 'discard', 'pop', 'clear', 'update', 'append', 'extend', 'insert', 'sort', 'reverse', 'popitem', 'setdefault',
+                                'difference_update', 'intersection_update', 'symmetric_difference_update', '__setitem__', '__delitem__'):
+            return True
+        if isinstance(n, ast.Subscript) and isinstance(n.ctx, (ast.Store, ast.Del)) and unparse(n.value) == text:
+            return True
+        if isinstance(n, ast.AugAssign) and unparse(n.target) == text:
+            return True
+    return False
+
+
+def _elements(o):
+    """the collection whose elements an order term enumerates"""
+    while o is not None and o[0] in ('set', 'reversed'):
+        o = o[1]
+    if o is not None and o[0] == 'sorted':
+        return o[1]
+    return o
+
+
+def _show(o) -> str:
+    if o[0] == 'atom':
+        return f'{o[1]} in its own order'
+    if o[0] == 'set':
+        return f'the set built at line {o[2][0]} from {_show(o[1]).replace(" in its own order", "")}, in the order of that set'
+    if o[0] == 'sorted':
+        return f'the sorted elements of {_show(o[1]).replace(" in its own order", "")}'
+    return f'the reverse of {_show(o[1])}'
+
+
+def _neutral(v: ast.expr) -> bool:
+    if isinstance(v, ast.Constant) and v.value is None:
+        return True
+    if isinstance(v, (ast.List, ast.Tuple, ast.Set)) and not v.elts:
+        return True
+    if isinstance(v, ast.Dict) and not v.keys:
+        return True
+    return isinstance(v, ast.Call) and isinstance(v.func, ast.Name) and v.func.id in ('set', 'list', 'dict', 'tuple', 'frozenset') and not v.args and not v.keywords
 
 
 def _closed_forms(ctx: Ctx) -> None:
@@ -168,6 +302,8 @@ def _closed_forms(ctx: Ctx) -> None:
 
 def _epsilon_scaling(ctx: Ctx) -> None:
     """C18.R4: in a variant the error term enters every formula divided by the scale parameter (when there is one)"""
+    from ..cfg import cfg_of
+
     prog = ctx.prog
     base = prog.cls('mdcev.mdcev', 'Mdcev')
     n = 0
@@ -188,20 +324,52 @@ def _epsilon_scaling(ctx: Ctx) -> None:
             def is_eps(e):
                 return isinstance(e, ast.Name) and e.id in eps
 
-            scale = lambda e: any(unparse(x) == 'self.scale_parameter' for x in ast.walk(e))  # noqa: E731
-            scaled = any((isinstance(x, ast.AugAssign) and isinstance(x.op, ast.Div) and is_eps(x.target) and scale(x.value)) or
-                         (isinstance(x, ast.BinOp) and isinstance(x.op, ast.Div) and is_eps(x.left) and scale(x.right)) for x in walk_no_nested(m.node))
-            arith = [x for x in walk_no_nested(m.node) if (isinstance(x, ast.BinOp) and isinstance(x.op, (ast.Add, ast.Sub, ast.Mult)) and (is_eps(x.left) or is_eps(x.right))) or
+            cm = cfg_of(m.node)
+
+            def scale(e, at=None, seen=None) -> bool:
+                """the expression reads self.scale_parameter, directly or through the definitions that reach its names"""
+                seen = set() if seen is None else seen
+                if at is None:
+                    at = cm.node_of(e)
+                for x in ast.walk(e):
+                    if isinstance(x, ast.Attribute) and unparse(x) == 'self.scale_parameter':
+                        return True
+                    if isinstance(x, ast.Name) and isinstance(x.ctx, ast.Load) and at is not None:
+                        for df in cm.reaching(at, x.id):
+                            if (df.node, x.id) not in seen and df.value is not None:
+                                seen.add((df.node, x.id))
+                                if scale(df.value, df.node, seen):
+                                    return True
+                return False
+
+            stmts = list(walk_no_nested(m.node))
+            divisions = [(x.target, x.value, x) for x in stmts if isinstance(x, ast.AugAssign) and isinstance(x.op, ast.Div) and is_eps(x.target)] + \
+                        [(x.left, x.right, x) for x in stmts if isinstance(x, ast.BinOp) and isinstance(x.op, ast.Div) and is_eps(x.left)]
+            scaled = any(scale(d, cm.node_of(at)) for _n, d, at in divisions)
+            # other places where a scaling the rule does not follow may happen: a division by something else, a product with a
+            # quantity computed from the scale (its inverse), the error term handed to a call
+            unclear = bool(divisions) and not scaled
+            for x in stmts:
+                if isinstance(x, ast.BinOp) and isinstance(x.op, ast.Mult) and ((is_eps(x.left) and scale(x.right, cm.node_of(x))) or (is_eps(x.right) and scale(x.left, cm.node_of(x)))):
+                    unclear = True
+                if isinstance(x, ast.AugAssign) and isinstance(x.op, ast.Mult) and is_eps(x.target) and scale(x.value, cm.node_of(x)):
+                    unclear = True
+                if isinstance(x, ast.Call) and call_name(x) not in ('float',) and any(is_eps(a_) for a_ in list(x.args) + [k.value for k in x.keywords]):  # the error term itself is an argument
+                    unclear = True
+            arith = [x for x in stmts if (isinstance(x, ast.BinOp) and isinstance(x.op, (ast.Add, ast.Sub, ast.Mult)) and (is_eps(x.left) or is_eps(x.right))) or
                      (isinstance(x, ast.AugAssign) and isinstance(x.op, (ast.Add, ast.Sub)) and is_eps(x.value))]
             if arith:
-                per[name] = (scaled, m, arith[0])
+                per[name] = (True if scaled else (None if unclear else False), m, arith[0])
         sibs = sorted(k for k, v in per.items() if v[0])
         for name, (scaled, m, where) in sorted(per.items()):
             n += 1
+            if scaled is False and not sibs:
+                scaled = None  # no method of the class divides by the scale: the scaling is done somewhere the rule does not look
             ctx.add('C18.R4', f'{c.name}.{name}:epsilon/scale', scaled, (m.file, where.lineno),
                     f'{name}: the error term is divided by the scale parameter before it enters `{unparse(where)[:60]}`' if scaled else
-                    f'{name}: the error term enters `{unparse(where)[:60]}` without being divided by the scale parameter, while {", ".join(sibs) or "the other formulas"} of {c.name} use epsilon / scale: '
-                    'with a scale different from 1 this method disagrees with the utility, its derivative and the optimal consumption', 'scale', positive=True)
+                    (f'{name}: the error term enters `{unparse(where)[:60]}` and is never divided in this method (no division of it, no product with a quantity computed from the scale, not handed to another function), '
+                     f'while {", ".join(sibs)} of {c.name} use epsilon / scale: with a scale different from 1 this method disagrees with the utility, its derivative and the optimal consumption' if scaled is False else
+                     f'{name}: the way the error term is scaled before it enters `{unparse(where)[:60]}` is not in the expected form (epsilon / scale parameter)'), 'scale', positive=scaled is False)
     ctx.floor('C18.R4', 12)
 
 
@@ -213,7 +381,6 @@ POSITIVE: list[tuple[str, str, str]] = [
     ('C18.R1', r'<-', 'a positional array is filled in the order of the sorted labels'),
     ('C18.R2', r'.', 'an array received as argument (the error terms) is modified in place'),
     ('C18.R3', r':(numeric=symbolic|derivative|inverse)$', 'closed forms translated to sympy: the numeric utility, its derivative and the optimal consumption do not fit together'),
-    ('C18.R4', r':epsilon/scale$', 'sibling agreement on the scaling of the error term'),
 ]
 
 
@@ -298,12 +465,13 @@ def run(ctx: Ctx) -> None:
             arrays = {p.arg for p in a.args + a.kwonlyargs if p.annotation is not None and re.search(r'ndarray|np\.array', unparse(p.annotation))}
             for n in walk_no_nested(f.node):
                 if isinstance(n, ast.AugAssign) and isinstance(n.target, ast.Name) and n.target.id in arrays:
-                    rebound = [x for x in walk_no_nested(f.node) if isinstance(x, ast.Assign) and any(unparse(t) == n.target.id for t in x.targets) and seq(x) < seq(n)]
+                    rebound = [x for x in walk_no_nested(f.node) if isinstance(x, (ast.Assign, ast.AnnAssign)) and any(unparse(t) == n.target.id for t in (x.targets if isinstance(x, ast.Assign) else [x.target])) and seq(x) < seq(n)]
                     ctx.add('C18.R2', f'{f.qualname}:{n.target.id}', bool(rebound), (f.file, n.lineno), f'{unparse(n)} on a local copy' if rebound else f'{unparse(n)} modifies the caller\'s array {n.target.id} in place: the next use of the same draw sees other values', unparse(n))
                 elif isinstance(n, (ast.Assign, ast.AugAssign)):
                     for t in (n.targets if isinstance(n, ast.Assign) else [n.target]):
                         if isinstance(t, ast.Subscript) and isinstance(t.value, ast.Name) and t.value.id in arrays:
-                            ctx.add('C18.R2', f'{f.qualname}:{t.value.id}[]', False, (f.file, n.lineno), f'{unparse(n)[:60]} writes into the caller\'s array', unparse(n)[:60])
+                            rebound = [x for x in walk_no_nested(f.node) if isinstance(x, (ast.Assign, ast.AnnAssign)) and any(unparse(t_) == t.value.id for t_ in (x.targets if isinstance(x, ast.Assign) else [x.target])) and seq(x) < seq(n)]
+                            ctx.add('C18.R2', f'{f.qualname}:{t.value.id}[]', True if rebound else False, (f.file, n.lineno), f'{unparse(n)[:60]} writes into a local copy' if rebound else f'{unparse(n)[:60]} writes into the caller\'s array', unparse(n)[:60])
             for p in arrays:
                 ctx.add('C18.R2', f'{f.qualname}({p})', True, f, f'array parameter {p} examined', p)
     if n_sub < 15 or n_cmp < 2:
@@ -327,8 +495,12 @@ def run(ctx: Ctx) -> None:
             n5 += 1
             want = f'{mm.group(1)}_utilities'
             okt = set(tables) == {want}
-            ctx.add('C18.R5', f'{c_.name}.{mname}:table', okt, m_, f'{mname} evaluates self.{want} in every case' if okt else
-                    f'{mname} evaluates {" / ".join("self." + t_ for t_ in tables)}: with estimation results attached another part of the utility is computed than without (and than the symbolic utility uses)', str(tables), positive=True)
+            # the contradiction: the cases of one method read different tables, or the table of another calculate_<part>_utility
+            others = {f'{mo.group(1)}_utilities' for k_ in c_.mro() for mn_ in k_.methods for mo in [re.fullmatch(r'calculate_(\w+)_utility', mn_)] if mo and mo.group(1) != mm.group(1)}
+            crossed = len(set(tables)) > 1 or bool(set(tables) & others)
+            ctx.add('C18.R5', f'{c_.name}.{mname}:table', True if okt else (False if crossed else None), m_, f'{mname} evaluates self.{want} in every case' if okt else
+                    (f'{mname} evaluates {" / ".join("self." + t_ for t_ in tables)}: with estimation results attached another part of the utility is computed than without (and than the symbolic utility uses)' if crossed else
+                     f'{mname} evaluates self.{tables[0]} in every case: not the table the rule expects under that name (self.{want}); shape not recognised'), str(tables), positive=crossed and not okt)
     if n5 < 2:
         raise AnalysisError(f'C18.R5: only {n5} calculate_<part>_utility methods found')
     fb = prog.cls('mdcev.mdcev', 'Mdcev').methods['forecast_bisection_one_draw']
@@ -347,10 +519,19 @@ def run(ctx: Ctx) -> None:
     from ..pattern import find as _find
 
     bk = _find(init.node, 'self.key_to_index = {_K: _I for _I, _K in enumerate(__SRC)}')
-    ok = None
-    if bk is not None and (has(init.node, 'self.index_to_key = [_K for _K in self.alternatives]') or has(init.node, 'self.index_to_key = list(self.alternatives)')):
-        ok = unparse(bk['__SRC'][1]) == 'self.index_to_key'
-    ctx.add('C18.R1', 'Mdcev.__init__:tables', ok, init, 'key_to_index is built by enumerating index_to_key: the two tables are inverse of each other' if ok else (f'key_to_index enumerates {unparse(bk["__SRC"][1])}, not index_to_key: the two tables are inverse of each other only when both orders happen to coincide' if ok is False else 'shape not recognised - expected: index_to_key = list of the alternatives, key_to_index = {key: position} over it'), 'tables', positive=ok is False)
+    ok, why = None, 'shape not recognised - expected: index_to_key = list of the alternatives, key_to_index = {key: position} over it'
+    if bk is not None:
+        o_key = _order_of(init.node, bk['__SRC'][1])
+        o_idx = _order_of(init.node, ast.parse('self.index_to_key', mode='eval').body)
+        src = unparse(bk['__SRC'][1])
+        if o_key is not None and o_idx is not None:
+            if o_key == o_idx:
+                ok, why = True, f'key_to_index enumerates {src}, the sequence index_to_key is built from (same collection, same order): the two tables are inverse of each other'
+            elif _elements(o_key) == _elements(o_idx):
+                ok = False
+                why = (f'key_to_index enumerates {src} ({_show(o_key)}) while index_to_key lists {_show(o_idx)}: the same labels in two orders that differ as soon as the labels are not written in increasing order; '
+                       'the two tables are inverse of each other only when both orders happen to coincide')
+    ctx.add('C18.R1', 'Mdcev.__init__:tables', ok, init, why, 'tables', positive=ok is False)
     og = M.methods['outside_good_index']
     ok = 'return self.key_to_index[self.outside_good_key]' in unparse(og.node)
     ctx.add('C18.R1', 'Mdcev.outside_good_index', ok, og, 'position of the outside good = key_to_index[its label]' if ok else 'outside_good_index changed', 'og')
